@@ -5,25 +5,25 @@ static const char *const CNT[] = { "struct_singular", "matched", "unique_optimum
 enum { K_SING, K_OK, K_UNIQ, K_TIED, K_ZD, K_N4 };
 static const char *const RAT[] = { "logsum_gap_over_tol", "scaled_entry_excess_over_tol", NULL };
 
-static const int V17[] = { 0, 1, 2, 3, 4, 5, 6, 7, 15 };
+static const int V17[] = { 0, 1, 2, 3, 4, 5, 6, 7, 15, 18 };
 static void s17a(const int *d, vcase *c) { all123(d[0], &c->n, &c->pat); c->m = c->n; c->vals = V17[d[1]]; c->type = d[2]; }
-static void s17b(const int *d, vcase *c) { c->n = c->m = 4; c->pat = (uint64_t)d[0]; c->vals = (int[]){ 0, 1, 7, 15, 4, 3, 5 }[d[1]]; c->type = d[2]; }
+static void s17b(const int *d, vcase *c) { c->n = c->m = 4; c->pat = (uint64_t)d[0]; c->vals = (int[]){ 0, 1, 7, 15, 18, 4, 3, 5 }[d[1]]; c->type = d[2]; }
 static void s17c(const int *d, vcase *c) { c->n = c->m = 5; c->pat = dev1_pattern(5, base_pattern(5, d[0]), d[1]); c->vals = V17[d[2]]; c->type = d[3]; }
 static void s17d(const int *d, vcase *c) { c->n = c->m = 6; c->pat = dev1_pattern(6, base_pattern(6, d[0]), d[1]); c->vals = V17[d[2]]; c->type = d[3]; }
 static void s17g(const int *d, vcase *c) { c->n = c->m = (int[]){ 8, 10, 12 }[d[0]]; c->gen = 2; c->pat = (uint64_t)(2000 + d[1] + 5000 * d[0]); c->vals = 17; c->type = d[2] ? TC : TD; }
 #define FAM17G(np) { "orders 8, 10, 12: generated patterns x generic tie-free magnitudes (V17) x {d,c}: heap operations of MC64 on longer augmenting paths; optimality by the scaling certificate (brute force up to order 8)", 3, { 3, np, 2 }, s17g }
 static const family F17Q[] = {
-    { "ALL(1..3) x {V0-V7,V15} x type4", 3, { N_ALL123, 9, 4 }, s17a },
-    { "ALL(4) x {V0,V1,V7,V15} x type4", 3, { N_ALL4, 4, 4 }, s17b },
-    { "DEV_1(BASE(5)) x {V0-V7,V15} x type4", 4, { 9, 26, 9, 4 }, s17c },
-    { "DEV_1(BASE(6)) x {V0-V7,V15} x type4", 4, { 9, 37, 9, 4 }, s17d },
+    { "ALL(1..3) x {V0-V7,V15,V18} x type4", 3, { N_ALL123, 10, 4 }, s17a },
+    { "ALL(4) x {V0,V1,V7,V15,V18} x type4", 3, { N_ALL4, 5, 4 }, s17b },
+    { "DEV_1(BASE(5)) x {V0-V7,V15,V18} x type4", 4, { 9, 26, 10, 4 }, s17c },
+    { "DEV_1(BASE(6)) x {V0-V7,V15,V18} x type4", 4, { 9, 37, 10, 4 }, s17d },
     FAM17G(3000),
 };
 static const family F17T[] = {
-    { "ALL(1..3) x {V0-V7,V15} x type4", 3, { N_ALL123, 9, 4 }, s17a },
-    { "ALL(4) x {V0,V1,V7,V15,V4,V3,V5} x type4", 3, { N_ALL4, 7, 4 }, s17b },
-    { "DEV_1(BASE(5)) x {V0-V7,V15} x type4", 4, { 9, 26, 9, 4 }, s17c },
-    { "DEV_1(BASE(6)) x {V0-V7,V15} x type4", 4, { 9, 37, 9, 4 }, s17d },
+    { "ALL(1..3) x {V0-V7,V15,V18} x type4", 3, { N_ALL123, 10, 4 }, s17a },
+    { "ALL(4) x {V0,V1,V7,V15,V18,V4,V3,V5} x type4", 3, { N_ALL4, 8, 4 }, s17b },
+    { "DEV_1(BASE(5)) x {V0-V7,V15,V18} x type4", 4, { 9, 26, 10, 4 }, s17c },
+    { "DEV_1(BASE(6)) x {V0-V7,V15,V18} x type4", 4, { 9, 37, 10, 4 }, s17d },
     FAM17G(30000),
 };
 #define NF(F) ((int)(sizeof F / sizeof *F))
